@@ -122,6 +122,14 @@ EvInsertL == Is("il") /\ UsableL(Ev.o, Ev.a)
              /\ LET s == lst[Ev.o] IN AddL(Ev.o, IF InSeq(s, Ev.a) THEN LET p == Pos(s, Ev.a) IN SubSeq(s, 1, p - 1) \o <<nn + 1>> \o SubSeq(s, p, Len(s))
                                                  ELSE Append(s, nn + 1))
              /\ PlainKind
+\* the helpers' prepend / insert forms (count Ev.a, before Ev.b)
+Ins(s, h) == IF InSeq(s, h) THEN LET p == Pos(s, h) IN SubSeq(s, 1, p - 1) \o <<nn + 1>> \o SubSeq(s, p, Len(s)) ELSE Append(s, nn + 1)
+CtrKind == kind' = Append(kind, [k |-> "ctr", left |-> IF Ev.a < 1 THEN 1 ELSE Ev.a]) /\ UNCHANGED rem
+CondKind == kind' = Append(kind, [k |-> "cond", left |-> 0]) /\ UNCHANGED rem
+EvPrependCtr == Is("pc") /\ AddL(Ev.o, <<nn + 1>> \o lst[Ev.o]) /\ CtrKind
+EvInsertCtr == Is("ic") /\ UsableL(Ev.o, Ev.b) /\ AddL(Ev.o, Ins(lst[Ev.o], Ev.b)) /\ CtrKind
+EvPrependCond == Is("qk") /\ AddL(Ev.o, <<nn + 1>> \o lst[Ev.o]) /\ CondKind
+EvInsertCond == Is("ik") /\ UsableL(Ev.o, Ev.b) /\ AddL(Ev.o, Ins(lst[Ev.o], Ev.b)) /\ CondKind
 EvRemoveL == /\ Is("rl") /\ UsableL(Ev.o, Ev.a)
              /\ LET S == Settle(frames, done)  was == InSeq(lst[Ev.o], Ev.a) IN
                 /\ InCtx(S.fr) /\ Ev.r = (IF was THEN 1 ELSE 0)
@@ -392,7 +400,7 @@ EvReset == /\ Is("rs") /\ frames = <<>> /\ Ev.lv = 0 /\ Ev.pv = 0
            /\ armed' = FALSE
            /\ kind' = <<>> /\ rem' = [r \in Rs |-> IF r = 1 THEN [alive |-> TRUE, tgt |-> 1, resp |-> {}] ELSE NoRem]
 
-Next == \/ ((EvAppendL \/ EvPrependL \/ EvInsertL \/ EvAppendCtr \/ EvAppendCond \/ EvAppendCF) /\ UA)
+Next == \/ ((EvAppendL \/ EvPrependL \/ EvInsertL \/ EvAppendCtr \/ EvAppendCond \/ EvAppendCF \/ EvPrependCtr \/ EvInsertCtr \/ EvPrependCond \/ EvInsertCond) /\ UA)
         \/ EvThrowUser \/ EvDispatchExit \/ EvProcessExit \/ EvArm \/ EvFaulted \/ EvTakeFaulted
         \/ ((EvEnumBegin \/ EvEnumVisit \/ EvEnumRet \/ EvEnumEnd) /\ UR)
         \/ ((EvRemoveL \/ EvHasAnyL \/ EvOwnsL \/ EvForEachL \/ EvVisitL \/ EvAppendF \/ EvRemoveF
